@@ -651,3 +651,64 @@ def check_data_inplace(ctx):
                   f'object reached through a data field '
                   f'({", ".join(DATA_FIELDS)}) of a parameter',
                   nontrivial=True)
+
+
+# ---------------------------------------------------------- ITER-STORE ---
+
+ONE_SHOT = {'reversed', 'iter', 'map', 'filter', 'zip', 'enumerate',
+            'chain', 'islice'}
+
+
+def check_iter_store(ctx):
+    """The inputs a test keeps are read more than once (evaluate(), data()
+    for the fingerprint, evaluate() again): they must be re-iterable.  A
+    one-shot iterator (reversed(), map(), zip(), a generator expression ...)
+    handed to a Test constructor for a parameter the class stores on self is
+    exhausted by the first reader: the second evaluation sees an empty input
+    and the fingerprint changes between two looks."""
+    from ..loader import ClassInfo
+    program = ctx.program
+    test = program.cls(TEST)
+    tests = {c.key: c for c in program.subclasses(test)}
+    n = 0
+    bad = 0
+    for func in program.all_functions():
+        if not func.module.name.startswith('valjean.gavroche'):
+            continue
+        for call in [c for c in ast.walk(func.node)
+                     if isinstance(c, ast.Call)]:
+            klass = program.resolve_name_expr(func.module, call.func, func)
+            if not isinstance(klass, ClassInfo) or klass.key not in tests:
+                continue
+            init = program.find_method(klass, '__init__')
+            stored = set()
+            if init is not None:
+                for node in ast.walk(init.node):
+                    if isinstance(node, ast.Assign) and isinstance(
+                            node.value, ast.Name) and any(
+                                isinstance(t, ast.Attribute) and dotted(
+                                    t.value) == 'self'
+                                for t in node.targets):
+                        stored.add(node.value.id)
+            n += 1
+            for kwd in call.keywords:
+                val = kwd.value
+                one_shot = isinstance(val, ast.GeneratorExp) or (
+                    isinstance(val, ast.Call) and isinstance(
+                        val.func, ast.Name) and val.func.id in ONE_SHOT)
+                if one_shot and (kwd.arg in stored or not stored):
+                    bad += 1
+                    program.consulted.add(func.module.relpath)
+                    ctx.violated(
+                        'ITER-STORE', func,
+                        f'{func.name}: {klass.name}({kwd.arg}='
+                        f'{txt(val)[:40]})', at=func.where(call),
+                        detail='a one-shot iterator is stored in the test: '
+                               'the first evaluate() / fingerprint exhausts '
+                               'it, later readings get nothing')
+    ctx.floor('ITER-STORE', n, 3, 'constructions of Test subclasses in '
+              'valjean.gavroche')
+    if not bad:
+        ctx.holds('ITER-STORE', 'valjean.gavroche',
+                  f'{n} constructions of tests: no one-shot iterator handed '
+                  f'to a stored parameter', nontrivial=False)
